@@ -84,6 +84,12 @@ let dispatch (fn : string) (args : sx list) : sx =
                           | OConcat ks -> L [A "concat"; of_list of_nat ks] in
       of_opt (fun p -> L [of_list of_slice p.p_slices; of_list of_out p.p_outs])
         (repart_plan (get_list get_z a) (get_list get_z b) (get_bool force))
+  | "plan_ok", [a; b; slices; outs] ->
+      let get_slice = function L [src; lo; hi; c] -> { s_src = get_nat src; s_lo = get_z lo; s_hi = get_z hi; s_closed = get_bool c }
+                             | _ -> failwith "slice" in
+      let get_out = function A "dummy" -> ODummy | L [A "alias"; k] -> OAlias (get_nat k)
+                           | L [A "concat"; ks] -> OConcat (get_list get_nat ks) | _ -> failwith "out" in
+      of_bool (plan_ok (get_list get_z a) (get_list get_z b) { p_slices = get_list get_slice slices; p_outs = get_list get_out outs })
   | "clean_boundaries", [bs; n] -> of_list of_nat (clean_boundaries (get_list get_nat bs) (get_nat n))
   | "fewer_ranges", [bs] -> of_list (of_list of_nat) (fewer_ranges (get_list get_nat bs))
   | "more_nsplits", [a; b] -> of_list of_nat (more_nsplits (get_nat a) (get_nat b))
